@@ -871,15 +871,21 @@ func worker(c *core.Ctx, args []string) {
 		New: func(w int) xstate.Instance { return newInst(cfg) }})
 }
 
+// colliding1: clients of one broker juggle two channels whose ssids share one bucket of the per-peer subscription
+// counters on the other broker (equal xor-fold); four client operations reach "first one gone, then the other".
+var colliding1 = Config{Name: "2-brokers-colliding-one-side", N: 2, ClientOps: 4, Ticks: 0, Depth: 8, Filters: []string{"a/b/", "b/a/"}, OnlyOn: []int{0}}
+
 func configs(quick bool) []Config {
 	if quick {
 		return []Config{
 			{Name: "2-brokers", N: 2, ClientOps: 3, Ticks: 1, Depth: 9, Filters: []string{"a/"}},
+			colliding1,
 		}
 	}
 	return []Config{
 		{Name: "2-brokers", N: 2, ClientOps: 4, Ticks: 1, Depth: 12, Filters: []string{"a/"}},
 		{Name: "2-brokers-colliding", N: 2, ClientOps: 3, Ticks: 1, Depth: 9, Filters: []string{"a/b/", "b/a/"}},
+		colliding1,
 		{Name: "2-brokers-faults", N: 2, ClientOps: 2, Ticks: 1, Faults: 1, Depth: 8, Filters: []string{"a/"}},
 		{Name: "3-mesh", N: 3, ClientOps: 3, Ticks: 0, Depth: 8, Filters: []string{"a/"}},
 		{Name: "3-line", N: 3, Line: true, ClientOps: 3, Ticks: 1, Faults: 1, Depth: 8, Filters: []string{"a/"}},
